@@ -126,6 +126,23 @@ def run(ch, build):
         m_n, m_res = mo.split(" ", 1)
         if (m_res.strip() if m_res.startswith("ok") else "err") != impl or int(m_n) != nreq:
             ch.corr_break(desc, {"scenario": scn, "impl": impl, "requests": nreq, "model": mo})
+    # a slow enumeration: the first request of EVERY chunk goes unanswered for a whole per-attempt timeout (then it is
+    # answered); the caller's context leaves ample time - the list is still returned whole, however many chunks it has
+    slow = []
+    for nrec in ((6, 12, 20) if ch.quick() else (3, 6, 9, 12, 16, 20, 24)):
+        recs = gen_recs(rng, nrec)
+        data = enc_records(recs)
+        nch = len(data) // 16 + 1
+        slow.append({"bmc": conn.default_bmc(seed=8, records=data.hex()), "timeout_ms": 30, "exp": expand(recs), "len": len(data),
+                     "steps": [{"op": "ciphersuites", "script": ["silence", "ok"] * nch, "ctx_ms": 20000}]})
+    for scn, out in zip(slow, conn.run_scenarios(slow, spread=True)):
+        res = out["steps"][0]
+        ch.note_case("c16-cs-slow", "%d" % scn["len"])
+        impl = ("ok " + res.get("value", "")).strip() if res["err"] == "nil" else "err:" + res["err"]
+        if res.get("panic") or impl != ("ok " + scn["exp"]).strip():
+            ch.violation({"kind": "c16-ciphersuites", "family": "slow", "len": scn["len"]},
+                         {"scenario": scn, "what": "every chunk was served after one retransmission and the context had 20 s: the whole list is expected",
+                          "impl": impl[:300], "want": ("ok " + scn["exp"])[:300], "requests": len(res["sent"]), "elapsed_ms": res.get("elapsed_ms")})
     # ---- DCMI paging ----
     steps_cfg = []
     counts = range(0, 256) if not ch.quick() else sorted(set(list(range(0, 20)) + [31, 32, 33, 63, 64, 100, 127, 128, 200, 247, 248, 249, 254, 255]))
